@@ -51,8 +51,8 @@ def handle : List String → String
       | none => "err range"
   | ["fmt", "from", h] => match bytesOfHex h with
       | some bs => match formatFields (beNat bs) with
-          | some (l, s) => if bs.length = 2 then s!"ok {l} {b01 s}" else "err decode"
-          | none => "err decode"
+          | some (l, s) => if bs.length = 2 then s!"ok {l} {b01 s}" else "err parse"
+          | none => "err parse"
       | none => "bad-op"
   | ["fmt", "mto", l, s] => showExcept hexOfBytes (Model.Fields.fmtToBytes l.toNat! (pb s))
   | ["fmt", "mfrom", h] => match bytesOfHex h with
